@@ -36,7 +36,7 @@ PROBES = {
     "nilIsUntypedOnly": [_probe("opts", 3000, 6), _probe("call", 500, 0, "affinity")],
     "filtersTotal": [_probe("redef", 1500, 0)],
     "optsCopied": [_probe("opts", 2000, 6), _probe("call", 900, 0, "general")],
-    "fromSignatureFresh": [_probe("result", 3000, 5)],
+    "fromSignatureFresh": [_probe("result", 3000, 5), _probe("hist", 1500, 0)],
     "argEager": [_probe("call", 1200, 0, "general"), _probe("opts", 2000, 6)],
     "edgeToPathReadOnly": [_probe("dij", 1500, 7)],
     "optionsFirst": [_probe("opts", 3000, 6)],
@@ -55,7 +55,7 @@ RESOLVER_FAMILIES = {"call", "redef", "hist", "conv"}
 FACT_FAMILIES = {"fixedReverse": {"gops"}, "vsetValidates": {"vset"},
                  "constsRecognised": {"dij", "call", "redef", "hist", "conv"}, "emptyNameDelegates": {"opts", "call"},
                  "nilIsUntypedOnly": {"opts", "call"}, "filtersTotal": {"redef"}, "optsCopied": {"opts", "call", "redef"},
-                 "fromSignatureFresh": {"result"}, "argEager": {"opts", "call"}, "edgeToPathReadOnly": {"dij"},
+                 "fromSignatureFresh": {"result", "hist"}, "argEager": {"opts", "call"}, "edgeToPathReadOnly": {"dij"},
                  "optionsFirst": {"opts"}, "redefinedOptsThenValues": {"redef"}}
 
 
@@ -169,7 +169,7 @@ PROPS = {
         "theorems": ["ArgMapper.C17.partition_err", "ArgMapper.C17.partition_plain", "ArgMapper.C17.resolution_failure"],
         "modules": ["ArgMapper.Props.C17"],
         "rule": "result: any scenario (arity 0 included).",
-        "runs": {"quick": [fam("result", 2000, 5), fam("hist", 500, 0), fam("redef", 300, 0)], "thorough": [fam("result", 100000, 5), fam("hist", 40000, 0), fam("redef", 20000, 0)]},
+        "runs": {"quick": [fam("result", 2000, 5), fam("hist", 500, 0), fam("redef", 300, 0), fam("call", 400, 0, "malformed")], "thorough": [fam("result", 100000, 5), fam("hist", 40000, 0), fam("redef", 20000, 0), fam("call", 20000, 0, "malformed")]},
         "exhaustive": {"quick": False, "thorough": False},
     },
     "C01": {
@@ -208,8 +208,8 @@ PROPS = {
         "claim": "Theorems (for every graph, oracle, behaviour and fuel): a failing execution is the last execution of the call and its error is what Call returns; a successful call executed no failing function; the target's own error is reported by the accessor. Tied to the code by trace conformance on chains with failing converters at every depth (multi-input, struct-returning, memoised) with error identity checked through provenance ids.",
         "note": "", "theorems": ["ArgMapper.C04.failing_execution_is_last", "ArgMapper.C04.ok_means_no_failure", "ArgMapper.C04.target_error_reported", "ArgMapper.C04.conv_error_verbatim"], "facts": {"r5SkipSame": "true", "r6NameTest": "true", "publishAfterUpdate": "true", "trackReaching": "true", "takeValuedNamed": "true", "hopCopies": "true", "memoCopy": "true"},
         "rule": "call: at least one function executed.",
-        "runs": {"quick": [fam("call", 500, 0, "fail"), fam("call", 200, 0, "general"), fam("call", 150, 0, "gens"), fam("redef", 300, 0), fam("race", 40, 8, "25f", bin="harness-race")],
-                 "thorough": [fam("call", 50000, 0, "fail"), fam("call", 20000, 0, "general"), fam("call", 10000, 0, "gens"), fam("redef", 20000, 0), fam("race", 800, 8, "40f", bin="harness-race")]},
+        "runs": {"quick": [fam("call", 500, 0, "fail"), fam("call", 200, 0, "general"), fam("call", 150, 0, "gens"), fam("redef", 300, 0), fam("hist", 500, 0), fam("result", 800, 5), fam("race", 40, 8, "25f", bin="harness-race")],
+                 "thorough": [fam("call", 50000, 0, "fail"), fam("call", 20000, 0, "general"), fam("call", 10000, 0, "gens"), fam("redef", 20000, 0), fam("hist", 30000, 0), fam("result", 30000, 5), fam("race", 800, 8, "40f", bin="harness-race")]},
     },
     "C05": {
         "claim": "Theorems for the subtype-free fragment, every oracle: complete_single (single-input converters, cycles allowed: once callGraph finds every parameter reachable the call ends in success or in a function body's own error) stable (the outcome class does not depend on the oracle) and complete_acyclic (clause (b): any number of inputs per converter, the pruned graph acyclic and every surviving converter with all its requirements in the graph). With the full label language (names, subtypes, interfaces) and every legal oracle: complete_single_legal (single-input converters, arbitrary cycles — true of the repaired walk only: counterexample_single_legal is the pre-repair model refusing a satisfiable call, finding F22) and complete_acyclic_legal. Chaining is complete and the outcome stable on well-behaved converter sets. Tied to the code by trace conformance on acyclic-satisfiable and single-input-cyclic families, 8 repetitions per scenario; completeness is judged against the matching table, with the table-but-not-library matches (gaps G1-G5) listed as known findings.",
